@@ -132,6 +132,19 @@ def near_misses(rng):
                 b"00000000%02X" % c, b"1%02X" % c, b"100", b"0FF", b"ff", b"", b"G1", b"%02Xzz" % c, b"%02XA" % c,
                 b"%02X0" % c):
         out.append(good[:good.index(b"*") + 1] + txt)
+    # a byte-order mark or other invisible prefix before the sentence (nothing precedes the tag block / delimiter)
+    for pre in (b"\xef\xbb\xbf", b"\xff\xfe", b"\xfe\xff", b"\x00", b"\x7f", b"\x1b[0m", b"\xc2\xa0", b"\xe2\x80\x8b"):
+        out += [pre + good, pre + b"\\s:x*00\\" + good, b"\\s:x*00\\" + pre + good]
+    # bit-twiddled twins of the two checksum digits (case folding by OR-ing 0x20, parity bits, ...): not hex digits
+    st_ = good.index(b"*") + 1
+    for k in (0, 1):
+        for x in (0x20, 0x40, 0x80, 0x10, 0x30):
+            t = bytearray(good)
+            t[st_ + k] ^= x
+            if bytes(t[st_:st_ + 2]).upper() != good[st_:st_ + 2].upper():
+                out += [bytes(t), bytes(t) + b"\r\n"]
+        for ctl in range(0x10, 0x1A):
+            out.append(good + bytes([ctl]))
     # signed / prefixed / padded checksum texts (the value after '*' is a run of hex digits, nothing else)
     for txt in (b"+%X" % (c & 15), b"+%02X" % c, b"-%02X" % c, b" %02X" % c, b"0x%02X" % c, b"+0", b"+", b"-0", b"%02X " % c, b"%02X+" % c,
                 b"\t%02X" % c, b"_%02X" % c):
